@@ -3,6 +3,7 @@ package idxfile
 // Verification harness for C53 (overlay-injected; never committed to /repo).
 
 import (
+	"github.com/go-git/go-git/v6/plumbing"
 	"bytes"
 	"io/fs"
 	"time"
@@ -44,4 +45,40 @@ func VerifHarness_C53_idx() {
 		c, _ := idx.Count()
 		verifrt.Assert(c <= 1, "c53-idx-count-bounded-by-file-size")
 	}
+}
+
+// idx-lookup: a two-object idx (git's size rule admits a 64-bit slot only from
+// two objects on) whose offsets may carry the 64-bit flag (tail = 2 names +
+// 2 crcs + 2 offset32 [+ one 64-bit slot] + trailer), decoded and then queried
+// through every lookup that dereferences the 64-bit table: whatever the slot
+// indexes in the file, no lookup panics. Added after seed C53-1.
+func VerifHarness_C53_idx_lookup() {
+	var b []byte
+	b = append(b, 0xff, 't', 'O', 'c', 0, 0, 0, 2)
+	b = append(b, make([]byte, 255*4)...)
+	b = append(b, 0, 0, 0, 2)
+	tails := []int{104, 96}
+	b = append(b, verifrt.NondetBytes(tails[verifrt.Range(0, verifrt.Param("TAILS")-1)])...)
+	idx := new(MemoryIndex)
+	err := NewDecoder(verifInput{bytes.NewReader(b), int64(len(b))}, verifrt.NewRecHash(20)).Decode(idx)
+	verifrt.Reach("c53-idx-lookup-decoded")
+	if err != nil {
+		return
+	}
+	verifrt.Reach("c53-idx-lookup-accepted")
+	for k := 0; k < 2; k++ {
+		h, _ := plumbing.FromBytes(b[8+256*4+20*k : 8+256*4+20*k+20])
+		_, _ = idx.FindOffset(h)
+		_, _ = idx.FindCRC32(h)
+		_, _ = idx.Contains(h)
+	}
+	_, _ = idx.FindHash(int64(verifrt.NondetUint32()))
+	if it, err := idx.EntriesByOffset(); err == nil {
+		_, _ = it.Next()
+	}
+	if it, err := idx.Entries(); err == nil {
+		_, _ = it.Next()
+		_, _ = it.Next()
+	}
+	verifrt.Reach("c53-idx-lookup-done")
 }
